@@ -220,6 +220,39 @@ func c20Measure(s c20Shape, warm string, only string) (allocating []string, nops
 		ops = append(ops, op{name: "UnknownAttributes.GetFrom", f: func() { _ = uattr.GetFrom(m) }})
 		ops = append(ops, op{name: "UnknownAttributes.GetFrom(after a message with a minimal one)", f: func() { _ = uattr.GetFrom(small); _ = uattr.GetFrom(m) }})
 	}
+	// the batch helper Message.Parse with getters for an attribute the message has and for one it does not have (an
+	// optional attribute that is absent is the ordinary case): what the getters do one by one, without allocating,
+	// Parse does too
+	{
+		var absent stun.Getter
+		switch {
+		case !present[stun.AttrNonce]:
+			absent = &nonce
+		case !present[stun.AttrRealm]:
+			absent = &realm
+		case !present[stun.AttrSoftware]:
+			absent = &soft
+		default:
+			absent = &uname
+		}
+		var have stun.Getter = &ecode
+		switch {
+		case present[stun.AttrUsername]:
+			have = &uname
+		case present[stun.AttrRealm]:
+			have = &realm
+		case present[stun.AttrSoftware]:
+			have = &soft
+		case present[stun.AttrXORMappedAddress]:
+			have = &xaddr
+		case present[stun.AttrMappedAddress]:
+			have = &maddr
+		}
+		pair := []stun.Getter{have, absent}
+		ops = append(ops, op{name: "Message.Parse(a getter, a getter whose attribute is absent)", f: func() { _ = m.Parse(pair...) }})
+		three := []stun.Getter{absent, have, absent}
+		ops = append(ops, op{name: "Message.Parse(absent, present, absent)", f: func() { _ = m.Parse(three...) }})
+	}
 	if key != nil {
 		ops = append(ops, op{name: "MessageIntegrity.Check", f: func() { _ = key.Check(m) }})
 		wrong := stun.MessageIntegrity("not the key of this message")
